@@ -149,8 +149,23 @@ impl<T> SourceText<T> where T: AsRef<str> {
     /// position within the source text. None is returned if the result position
     /// is not within the text.
     pub fn previous_position(&self, base: Pos) -> Option<Pos> {
-        base.with_byte_offset(self.offset.byte,
-            |b| self.metrics.previous_position(self.as_str(), b))
+        let prev = base.with_byte_offset(self.offset.byte,
+            |b| self.metrics.previous_position(self.as_str(), b))?;
+
+        // Columns on the first line of the text continue from the column of
+        // the text's start position, but `ColumnMetrics` re-measures tabs
+        // and line ends from column 0.
+        if prev.page.line == self.offset.page.line
+            && self.offset.page.column != 0
+        {
+            let start = Pos { byte: 0, page: self.offset.page };
+            let mut pos = self.metrics.end_position(
+                &self.as_str()[..prev.byte - self.offset.byte],
+                start);
+            pos.byte += self.offset.byte;
+            return Some(pos);
+        }
+        Some(prev)
     }
 
     /// Returns true if a line break is positioned at the given byte position in
@@ -184,8 +199,7 @@ impl<T> SourceText<T> where T: AsRef<str> {
     /// Returns the position at the start of the next line after the given base
     /// position.
     pub fn previous_line_end_position(&self, base: Pos) -> Option<Pos> {
-        base.with_byte_offset(self.offset.byte,
-            |b| self.metrics.previous_line_end_position(self.as_str(), b))
+        self.previous_position(self.line_start_position(base))
     }
 
     /// Returns the position at the start of the next line after the given base
